@@ -36,7 +36,7 @@ pub fn gen_cone(rng: &mut Rng, allow_dd: bool) -> Case {
     // cells of the query depth (0.2..3 cells, dd capped at 8: at most a few thousand deep cells on the border)
     let query_sized = dd >= 3 && dd <= 8 && rng.below(3) == 0;
     let cell = 1.0 / nside(if query_sized { depth } else { depth + dd }) as f64;
-    if query_sized { let (lon, lat) = cone_center(rng); return Case::new("cone").u("depth", depth as u64).u("dd", dd as u64).f("lon", lon.rem_euclid(TWO_PI)).f("lat", lat).f("r", (cell * rng.range(0.2, 3.0)).min(PI)).u("s", rng.next() >> 1); }
+    if query_sized { let (lon, lat) = cone_center(rng); return Case::new("cone").u("depth", depth as u64).u("dd", dd as u64).f("lon", any_turn(rng, lon)).f("lat", lat).f("r", (cell * rng.range(0.2, 3.0)).min(PI)).u("s", rng.next() >> 1); }
     let r = match rng.below(9) {
       0 => cell * rng.log_uniform(1e-3, 1.0),
       1 => cell * rng.range(0.2, 3.2),
@@ -63,7 +63,7 @@ pub fn gen_cone(rng: &mut Rng, allow_dd: bool) -> Case {
       lat = s * match rng.below(4) { 0 | 1 => tl + (rng.f() - 0.5) * 4.0 * r2, 2 => PI / 2.0 - rng.f() * 3.0 * r2, _ => LAT_OF_SQUARE_CELL + (rng.f() - 0.5) * 4.0 * r2 };
       lat = lat.max(-PI / 2.0).min(PI / 2.0);
       if rng.coin() { lon = (rng.below(5) as f64) * PI / 2.0 + (rng.f() - 0.5) * 6.0 * r2 / lat.cos().max(1e-12); }
-      return Case::new("cone").u("depth", depth as u64).u("dd", dd as u64).f("lon", lon.rem_euclid(TWO_PI)).f("lat", lat).f("r", r2.max(1e-10)).u("s", rng.next() >> 1);
+      return Case::new("cone").u("depth", depth as u64).u("dd", dd as u64).f("lon", any_turn(rng, lon)).f("lat", lat).f("r", r2.max(1e-10)).u("s", rng.next() >> 1);
     }
     match rng.below(12) {
       0 => { let d = rng.below(30) as u8; let cs = sample_cells(rng, d, 4); let h = *rng.pick(&cs); let c = nested::get_or_create(d).center(h); lon = c.0; lat = c.1; }
@@ -71,7 +71,7 @@ pub fn gen_cone(rng: &mut Rng, allow_dd: bool) -> Case {
       2 => { let c = nested::get_or_create(depth).center(rng.below(n_hash(depth))); lon = c.0; lat = c.1; }
       _ => {}
     }
-    return Case::new("cone").u("depth", depth as u64).u("dd", dd as u64).f("lon", lon.rem_euclid(TWO_PI)).f("lat", lat).f("r", r).u("s", rng.next() >> 1);
+    return Case::new("cone").u("depth", depth as u64).u("dd", dd as u64).f("lon", any_turn(rng, lon)).f("lat", lat).f("r", r).u("s", rng.next() >> 1);
   }
 }
 
